@@ -79,6 +79,20 @@ func genAmtCase(t *rapid.T) interface{} {
 			x := new(big.Int).Lsh(big.NewInt(1), uint(b))
 			x.Add(x, big.NewInt(rapid.Int64Range(-1, 1).Draw(t, label+"off")))
 			return x.String()
+		case 3:
+			// the top of the range: a value that is worth 2^252 .. 2^255 hub units (with what circulates already, the supply
+			// then lies between 2^255 and 2^256 - still inside what an Int holds, still to be credited exactly)
+			b := rapid.SampledFrom([]uint{252, 253, 254, 254, 255}).Draw(t, label+"top")
+			x := new(big.Int).Lsh(big.NewInt(1), b)
+			x.Add(x, big.NewInt(rapid.Int64Range(-1, 1).Draw(t, label+"off")))
+			if c.Kind != "send" {
+				x.Mul(x, pow10(c.SrcDec))
+				x.Quo(x, pow10(18))
+			}
+			if x.Sign() <= 0 {
+				x = big.NewInt(1)
+			}
+			return x.String()
 		default:
 			return fmt.Sprint(rapid.Int64Range(1, 1<<62).Draw(t, label))
 		}
@@ -219,14 +233,19 @@ func runAmtCase(ci interface{}, rec *pbt.Rec) *pbt.Failure {
 		}
 	}
 	h := sim.NewHub(cfg)
+	funded := new(big.Int) // what the sender really owns before the request
 	if bal := bi(c.Balance); bal.Sign() > 0 {
-		if bal.BitLen() > 256 { // more than an sdk.Int can hold ("exactly enough" for two 2^255-scale values): the largest balance there is
-			bal = new(big.Int).Sub(new(big.Int).Lsh(big.NewInt(1), 256), big.NewInt(1))
+		// the supply must stay inside an sdk.Int together with the transit dust and the warm-up account of the governance
+		// prelude: the largest balance there is ("exactly enough" for two 2^255-scale values is more, and then is not enough)
+		if top := new(big.Int).Sub(new(big.Int).Lsh(big.NewInt(1), 256), pow10(31)); bal.Cmp(top) > 0 {
+			bal = top
 		}
+		funded = bal
 		if c.Kind != "send" && bal.BitLen() > 254 {
 			// a deposit mints: with the supply already at the top of the range the mint itself is impossible (C05's subject, not a
 			// question of amounts); the sender's balance plays no part in a deposit, so it stays where a mint still fits
 			bal = new(big.Int).Lsh(big.NewInt(1), 254)
+			funded = bal
 		}
 		h.Fund(sender, "hub", bal)
 	}
@@ -284,7 +303,7 @@ func runAmtCase(ci interface{}, rec *pbt.Rec) *pbt.Failure {
 		res := h.Deliver(msg)
 		total := new(big.Int).Add(amount, fee)
 		comm := refCommission(c.Rate, k, total)
-		mustFail := c.FeeDenom != 0 || bi(c.Balance).Cmp(total) < 0 || comm.Cmp(amount) > 0
+		mustFail := c.FeeDenom != 0 || funded.Cmp(total) < 0 || comm.Cmp(amount) > 0
 		// values that leave the 256-bit range while being converted may be refused or not
 		overflow := total.BitLen() > 255 || bridge.ToExt(c.DstDec, total).BitLen() > 255
 		nearTier := false
@@ -407,8 +426,10 @@ func runAmtCase(ci interface{}, rec *pbt.Rec) *pbt.Failure {
 		return nil
 
 	case "deposit", "tohub":
-		// values that leave the 256-bit range in hub units belong to C05; stay below here
-		for bridge.FromExt(c.SrcDec, new(big.Int).Add(amount, fee)).BitLen() > 250 || new(big.Int).Mul(new(big.Int).Add(amount, fee), pow10(18)).BitLen() > 250 {
+		// values that leave the 256-bit range in hub units belong to C05; stay below here: the locked value is below 2^255,
+		// what circulates already (the sender's 2^254 at most, transit dust) keeps the supply below 2^256 - everything up
+		// to there must be credited exactly
+		for bridge.FromExt(c.SrcDec, new(big.Int).Add(amount, fee)).BitLen() > 255 {
 			amount = new(big.Int).Rsh(amount, 32)
 			fee = new(big.Int).Rsh(fee, 32)
 			if amount.Sign() == 0 {
